@@ -54,7 +54,7 @@ Starts == IF Thorough THEN {1, 2} ELSE {1}
 
 Base == [solver |-> "", tag |-> "", Ls |-> <<>>, f |-> FZero, gs |-> <<>>, h |-> FZero,
          tau |-> QOne, sig |-> <<>>, th |-> QOne, x0 |-> <<>>, y0 |-> <<>>, b |-> <<>>,
-         sol |-> <<>>, lam |-> QZero, N |-> 6, pw |-> 1]
+         sol |-> <<>>, lam |-> QZero, N |-> 6, pw |-> 1, ls |-> <<>>]
 
 Steps3 == IF Thorough THEN {<<q(1, 1), q(1, 4)>>, <<q(1, 2), q(1, 2)>>, <<q(1, 4), q(1, 1)>>}
           ELSE {<<q(1, 1), q(1, 4)>>, <<q(1, 2), q(1, 2)>>}
@@ -273,7 +273,7 @@ KPGCat(u_) == { I \in KPG(0) : PGAdmissible(I) }
 KPairs == {[nm |-> "I2+D12", A |-> I2, B |-> D12]} \cup
           (IF Thorough THEN {[nm |-> "D12+B32", A |-> D12, B |-> B32]} ELSE {})
 K2F == {"L1t", "L2sq"} \cup (IF Thorough THEN {"Box"} ELSE {})
-K2G1 == {"L1", "L2sq"}
+K2G1 == {"L2sq"} \cup (IF Thorough THEN {"L1"} ELSE {})
 K2G2 == {"Box", "L2sq"} \cup (IF Thorough THEN {"L1t"} ELSE {})
 KDR2(u_) ==
   { [Base EXCEPT !.solver = "dr", !.tag = p.nm \o "/" \o fk \o "/" \o g1 \o "+" \o g2,
@@ -288,6 +288,20 @@ KFB2(u_) ==
        !.gs = <<MkF(g1, NRows(p.A), q(1, 4)), MkF(g2, NRows(p.B), q(1, 8))>>,
        !.h = FL2sq(q(1, 4), TVec(2)),
        !.x0 = KStart(2)] : p \in KPairs, fk \in K2F, g1 \in K2G1, g2 \in K2G2 }
+\* ---- forward-backward with the infimal-convolution option l (l_i = c |. - t|^2 strongly convex), sigma_i # 1,
+\*      one and two operators; h strongly convex
+KFBL(u_) ==
+  { [Base EXCEPT !.solver = "fb", !.tag = c[1] \o "/" \o fk \o "/" \o gk \o "/l",
+       !.Ls = c[2], !.tau = q(1, 4), !.sig = c[3],
+       !.f = MkF(fk, 2, Two),
+       !.gs = [i \in 1..Len(c[2]) |-> MkF(IF i = 1 THEN gk ELSE "Box", NRows(c[2][i]), QOne)],
+       !.ls = [i \in 1..Len(c[2]) |-> FL2sq(IF i = 1 THEN Half ELSE QOne, SubSeq(RInt(<<1, -1, 0>>), 1, NRows(c[2][i])))],
+       !.h = FL2sq(q(1, 4), TVec(2)),
+       !.x0 = KStart(2)] :
+    c \in {<<"I2", <<I2>>, <<Half>>>>, <<"D12", <<D12>>, <<q(1, 4)>>>>, <<"I2+D12", <<I2, D12>>, <<Half, q(1, 4)>>>>},
+    fk \in {"L1t", "L2sq"}, gk \in {"L2sq", "L1"} \cup (IF Thorough THEN {"L1t", "Box"} ELSE {}) }
+    \* (g = squared norm: the dual solution is non-zero, so a mis-scaled gradient of l* moves the limit point)
+
 \* ---- saddle problems without any strongly convex term (h = 0; f, g in {0, L1, box, point indicator}):
 \*      here the over-relaxation y = 2 x+ - x is what makes forward-backward converge
 KFBS(u_) ==
@@ -319,7 +333,7 @@ MC_Catalogue ==
     [] Solver = "kkt-pdhg" -> KPDHGCat(0)
     [] Solver = "kkt-admm" -> KADMMCat(0)
     [] Solver = "kkt-dr" -> KDRCat(0) \cup { I \in KDR2(0) : DRAdmissible(I) }
-    [] Solver = "kkt-fb" -> KFBCat(0) \cup { I \in KFB2(0) \cup KFBS(0) : FBAdmissible(I) }
+    [] Solver = "kkt-fb" -> KFBCat(0) \cup { I \in KFB2(0) \cup KFBS(0) \cup KFBL(0) : FBAdmissible(I) }
     [] Solver = "kkt-pg" -> KPGCat(0)
 
 HalfLattice(a, b) == { q(j, 2) : j \in a..b }
@@ -360,7 +374,8 @@ ExportAux ==
 ExportC12 == DenBound /\ ExportLine /\ ExportAux
 \* deliberately false, used by the self-test to show that the property runs are not vacuous
 BogusFejerIncreases ==
-  [][(Stepped /\ FejerSafe(ref) /\ FejerSafe(ref') /\ inst.solver \in {"pdhg", "fb", "pg"} /\ Admissible(inst)) =>
+  [][(Stepped /\ FejerSafe(ref) /\ FejerSafe(ref') /\ inst.solver \in {"pdhg", "fb", "pg"} /\ Admissible(inst)
+        /\ inst.ls = <<>>) =>
        \A w \in KKTSet(inst) : SLe(FejerQty(inst, ref, w), FejerQty(inst, ref', w))]_vars
 BogusKKTNotFixed ==
   (k = 0 /\ pc = 0 /\ inst.solver \in NonSmooth) => kkt = {}
